@@ -101,6 +101,25 @@ fn unreachable_after_panic(r_panic: Option<&RefEv>, e: &RefEv) -> bool {
     }
 }
 
+/// The target `a` lies in a FAILING step of an async try instance (the reference run notes it) that the waiter `b` is not part
+/// of: `try_join!` may drop `a` when a sibling fails, while `b` — outside that instance, possibly in an enclosing macro that
+/// recovers from the failure — would wait for it forever.
+fn may_be_cut_off(prog: &Prog, top: Kind, r: &RefRun, a: &RefEv, b: &RefEv) -> bool {
+    for (l, t) in a.tag.iter().enumerate() {
+        if t.branch == CALLER || !prog.inv_kind(t.inv, top).is_async() {
+            continue;
+        }
+        if !r.fail_notes.iter().any(|n| n.0 == t.inv && n.1 == t.inst && n.2 == t.step) {
+            continue;
+        }
+        let b_inside = b.tag.len() > l && b.tag[l].inv == t.inv && b.tag[l].inst == t.inst;
+        if !b_inside {
+            return true;
+        }
+    }
+    false
+}
+
 /// F-dep: edges drawn from a random linear extension of every concurrent step, so that any
 /// implementation that runs the step's branches independently can satisfy them.
 pub fn linear_extension_deps(prog: &Prog, top: Kind, r: &RefRun, panic_at: Option<&RefEv>, rng: &mut Rng, density_pct: u64) -> Vec<Dep> {
@@ -132,6 +151,9 @@ pub fn linear_extension_deps(prog: &Prog, top: Kind, r: &RefRun, panic_at: Optio
             if unreachable_after_panic(panic_at, a) {
                 continue;
             }
+            if may_be_cut_off(prog, top, r, a, b) {
+                continue;
+            }
             let ph = if rng.chance(1, 2) { Ph::Pass } else { Ph::Arrive };
             // the panicking event never "passes" in a way a sibling may rely on only if it is the
             // panic position itself: its Pass record is logged before the panic fires, so it is safe
@@ -149,6 +171,9 @@ pub fn rendezvous_deps(prog: &Prog, top: Kind, r: &RefRun, panic_at: Option<&Ref
     for branches in concurrent_groups(prog, top, r) {
         let firsts: Vec<&RefEv> = branches.iter().map(|b| b[0]).collect();
         if firsts.iter().any(|f| !can_wait(prog, top, f) || unreachable_after_panic(panic_at, f)) {
+            continue;
+        }
+        if firsts.iter().any(|f| firsts.iter().any(|g| may_be_cut_off(prog, top, r, f, g))) {
             continue;
         }
         groups += 1;
